@@ -1,24 +1,73 @@
 """Pure-Python stand-in for the compiled module `coloquinte_pybind` (C20).
 
 pybind11 is not available, so pycoloquinte/module.cpp cannot be built.  This
-module gives pycoloquinte/coloquinte.py what it imports, with the semantics the
-real module would have:
+module gives pycoloquinte/coloquinte.py what it imports, in two layers:
 
-* the enums are built from the *text* of module.cpp (`.value("P", E::C)`) and the
-  enumerator values of src/coloquinte.hpp — so a Python name bound to the wrong
-  enumerator gets the wrong value here too, exactly as in the compiled module;
-* `Circuit` mirrors the C++ `coloquinte::Circuit` for the members the reader uses
-  (constructor defaults, setters with their size checks, `addNet`, `rowHeight`,
-  `check`), raising the Python exception pybind11 would translate to
-  (`std::runtime_error` -> RuntimeError, failed argument conversion -> TypeError).
+1. hand-written mirrors of the C++ classes *under their C++ member names*
+   (`_CppRectangle`, `_CppRow`, `_CppCircuit`: constructor defaults, setters with
+   their size checks, `addNet`, `rowHeight`, `hpwl`, `check`, ...; see
+   src/coloquinte.hpp / src/coloquinte.cpp), raising the Python exception
+   pybind11 would translate to (`std::runtime_error` -> RuntimeError, failed
+   argument conversion -> TypeError);
 
-Only the standard library is used.  The tree to read is $COLOQUINTE_REPO
-(default /repo).
+2. the Python-visible layer (`Circuit`, `Rectangle`, `Row`, the parameter classes,
+   the enums), *generated at import time from the text of module.cpp* with the very
+   scanner the translator uses (tools/gen/Bindings.py `parse`): every
+   `.def_property("p", &C::g, &C::s)` becomes a Python property `p` whose getter
+   calls the mirror's `g` and whose setter calls the mirror's `s`, every
+   `.def_readwrite("p", &C::m)` reads/writes the mirror's field `m`, every
+   `.def("name", &C::f, py::arg(...)...)` forwards to the mirror's `f`, every
+   `.value("P", E::C)` gets the value of enumerator `E::C` of src/coloquinte.hpp.
+   So a Python name bound to the wrong C++ member behaves wrongly here too,
+   exactly as in the compiled module.  A bound member that has no mirror raises
+   `NotImplementedError("not mirrored: C::f")` when it is used (not at import).
+   Classes without a mirror (the *Parameters classes) are permissive stand-ins
+   that exist only when module.cpp binds them.
+
+Only the standard library (and tools/gen/Bindings.py) is used.  The tree to read
+is $COLOQUINTE_REPO (default /repo).  `Circuit._nets` (list of
+`(cells, xoffs, yoffs, weight)`) is a stub-internal window on the mirror's nets for
+the harness: module.cpp exposes no accessor for nets.
 """
 import os
 import re
+import sys
 
 _REPO = os.environ.get("COLOQUINTE_REPO", "/repo")
+_HERE = os.path.dirname(os.path.abspath(__file__))
+_TOOLS = os.path.normpath(os.path.join(_HERE, "..", "..", "tools"))
+
+
+# --------------------------------------------------------------------------
+# the binding table of module.cpp
+# --------------------------------------------------------------------------
+
+def _binding_table():
+    """tools/gen/Bindings.py `parse` on $COLOQUINTE_REPO/pycoloquinte/module.cpp.
+    Importing the scanner has no side effects (tools/translate.py and tools/common.py
+    only define functions and read environment variables); sys.path is restored."""
+    saved = list(sys.path)
+    try:
+        for p in (_TOOLS, os.path.join(_TOOLS, "gen")):
+            sys.path.insert(0, p)
+        try:
+            import Bindings
+            from translate import TranslateError
+        except Exception as e:
+            raise ImportError("cannot import the module.cpp scanner tools/gen/Bindings.py: %r" % (e,))
+    finally:
+        sys.path[:] = saved
+    path = os.path.join(_REPO, "pycoloquinte", "module.cpp")
+    try:
+        with open(path, errors="replace") as f:
+            src = f.read()
+        return Bindings.parse(src)
+    except TranslateError as e:
+        raise ImportError("cannot scan %s: %s" % (path, e))
+    except ImportError:
+        raise
+    except Exception as e:  # a crash of the scanner is an unreadable module.cpp too
+        raise ImportError("cannot scan %s: %r" % (path, e))
 
 
 def _strip_comments(s):
@@ -48,12 +97,29 @@ def _cpp_enums():
     return out
 
 
-class _EnumValue:
-    """A pybind11 enum value: compares by underlying value, has .name/.value."""
-    __slots__ = ("_type", "name", "value")
+_T = _binding_table()
+_CPP_ENUMS = _cpp_enums()
 
-    def __init__(self, typ, name, value):
-        self._type, self.name, self.value = typ, name, value
+
+# --------------------------------------------------------------------------
+# enums (Python-visible; built from the table and the header)
+# --------------------------------------------------------------------------
+
+class _EnumValue:
+    """A pybind11 enum value: wraps the C++ value, compares by it, has .value and
+    .name (pybind11 looks the name up by value: first registered entry, else "???")."""
+    __slots__ = ("_type", "value")
+
+    def __init__(self, typ, value):
+        self._type, self.value = typ, value
+
+    @property
+    def name(self):
+        if self._type is not None:
+            for n, v in self._type.__members__.items():
+                if v.value == self.value:
+                    return n
+        return "???"
 
     def __eq__(self, o):
         return isinstance(o, _EnumValue) and o._type is self._type and o.value == self.value
@@ -67,179 +133,546 @@ class _EnumValue:
     def __int__(self):
         return self.value
 
+    def __index__(self):
+        return self.value
+
     def __repr__(self):
-        return "<%s.%s: %d>" % (self._type.__name__, self.name, self.value)
+        return "<%s.%s: %d>" % (self._type.__name__ if self._type is not None else "?", self.name, self.value)
+
+
+_enums = {}        # Python name -> enum type
+_enum_of_cpp = {}  # C++ enum name -> enum type
 
 
 def _make_enums():
-    cpp = _cpp_enums()
-    src = _strip_comments(open(os.path.join(_REPO, "pycoloquinte", "module.cpp")).read())
-    enums = {}
-    for m in re.finditer(r"py::enum_<\s*(\w+)\s*>\s*\(\s*\w+\s*,\s*\"(\w+)\"\s*\)(.*?);", src, flags=re.S):
-        cpp_name, py_name, chain = m.group(1), m.group(2), m.group(3)
-        typ = type(py_name, (), {"__members__": {}})
-        for v in re.finditer(r"\.value\(\s*\"(\w+)\"\s*,\s*(\w+)::(\w+)", chain):
-            name, scope, enumerator = v.group(1), v.group(2), v.group(3)
-            val = _EnumValue(typ, name, cpp[scope][enumerator])
-            typ.__members__[name] = val
-            setattr(typ, name, val)
+    for py_name, cpp_name in _T["enums"]:
+        if py_name in _enums or cpp_name in _enum_of_cpp:
+            raise ImportError("module.cpp: enum %s (%s) is bound twice" % (py_name, cpp_name))
+        typ = type(py_name, (), {"__members__": {}, "__module__": __name__})
         typ._cpp_name = cpp_name
-        typ._exported = ".export_values()" in chain
-        enums[py_name] = typ
-    return enums
+        typ._exported = py_name in _T["exported"]
+        _enums[py_name] = typ
+        _enum_of_cpp[cpp_name] = typ
+    for enum_cpp, name, scope, enumerator in _T["enumValues"]:
+        typ = _enum_of_cpp[enum_cpp]
+        if scope not in _CPP_ENUMS or enumerator not in _CPP_ENUMS[scope]:
+            raise ImportError("module.cpp: %s::%s is not an enumerator of src/coloquinte.hpp" % (scope, enumerator))
+        if name in typ.__members__:
+            raise ImportError("module.cpp: %s: element \"%s\" already exists!" % (typ.__name__, name))
+        val = _EnumValue(typ, _CPP_ENUMS[scope][enumerator])
+        typ.__members__[name] = val
+        setattr(typ, name, val)
 
 
-_enums = _make_enums()
-CellOrientation = _enums["CellOrientation"]
-CellRowPolarity = _enums["CellRowPolarity"]
-LegalizationModel = _enums["LegalizationModel"]
-NetModel = _enums["NetModel"]
-PlacementStep = _enums["PlacementStep"]
-for _t in _enums.values():
-    if _t._exported:
-        for _n, _v in _t.__members__.items():
-            globals()[_n] = _v
+_make_enums()
+
+
+def _cpp_enum_value(cpp_enum, enumerator):
+    """The C++ value `cpp_enum::enumerator` (or the integer `enumerator`) as it would
+    come back to Python."""
+    v = enumerator if isinstance(enumerator, int) else _CPP_ENUMS[cpp_enum][enumerator]
+    return _EnumValue(_enum_of_cpp.get(cpp_enum), v)
+
+
+# --------------------------------------------------------------------------
+# type casters (what pybind11 does to arguments and return values)
+# --------------------------------------------------------------------------
+
+_py_class_of = {}  # C++ class name -> generated Python-visible class
+
+
+class _Bound(object):
+    """Base of every generated Python-visible class; `_cpp` is the wrapped mirror object."""
+    _cpp = None
 
 
 def _is_int(v):
     return isinstance(v, int) and not isinstance(v, bool) and -2**31 <= v < 2**31
 
 
-class Rectangle:
-    def __init__(self, min_x, max_x, min_y, max_y):
-        for v in (min_x, max_x, min_y, max_y):
-            if not _is_int(v):
-                raise TypeError("Rectangle(): incompatible constructor arguments")
-        self.min_x, self.max_x, self.min_y, self.max_y = min_x, max_x, min_y, max_y
-
-    @property
-    def height(self):
-        return self.max_y - self.min_y
-
-    @property
-    def width(self):
-        return self.max_x - self.min_x
+def _is_bool(v):
+    return isinstance(v, bool)
 
 
-class Row(Rectangle):
-    def __init__(self, area, orientation):
-        if not isinstance(area, Rectangle) or not (isinstance(orientation, _EnumValue) and orientation._type is CellOrientation):
-            raise TypeError("Row(): incompatible constructor arguments")
-        Rectangle.__init__(self, area.min_x, area.max_x, area.min_y, area.max_y)
-        self.orientation = orientation
+def _is_enum(cpp_enum):
+    def ok(v):
+        t = _enum_of_cpp.get(cpp_enum)
+        return t is not None and isinstance(v, _EnumValue) and v._type is t
+    return ok
 
 
-class _Params:
-    def __init__(self, *a, **k):
-        pass
-
-    def check(self):
-        pass
-
-
-class ColoquinteParameters(_Params):
-    pass
+def _self_cpp(obj):
+    c = obj._cpp
+    if c is None:
+        raise TypeError("%s.__init__() must be called when overriding __init__" % type(obj).__name__)
+    return c
 
 
-class GlobalPlacerParameters(_Params):
-    pass
+def _load_obj(v, cpp_class, what):
+    """Python object -> the mirror object of a bound C++ class (implicit upcast allowed)."""
+    cls = _py_class_of.get(cpp_class)
+    if cls is None or not isinstance(v, cls) or v._cpp is None:
+        raise TypeError("incompatible function arguments (%s)" % what)
+    return v._cpp
 
 
-class LegalizationParameters(_Params):
-    pass
-
-
-class DetailedPlacerParameters(_Params):
-    pass
-
-
-def _conv(seq, ok, what):
+def _conv(seq, ok, what, load=None):
     """pybind11's list caster: a copy, or TypeError when an element does not convert."""
     try:
         lst = list(seq)
     except TypeError:
         raise TypeError("incompatible function arguments (%s)" % what)
+    if load is not None:
+        return [load(v, what) for v in lst]
     for v in lst:
         if not ok(v):
             raise TypeError("incompatible function arguments (%s)" % what)
     return lst
 
 
-def _is_enum(t):
-    return lambda v: isinstance(v, _EnumValue) and v._type is t
+def _to_py(v):
+    """C++ return value -> Python object."""
+    if isinstance(v, list):
+        return [_to_py(x) for x in v]
+    if isinstance(v, _CppObject):
+        cls = _py_class_of.get(type(v)._cpp_name)
+        if cls is None:
+            raise TypeError("Unable to convert function return value to a Python type (%s is not bound)" % type(v)._cpp_name)
+        o = object.__new__(cls)
+        o._cpp = v
+        return o
+    if isinstance(v, _EnumValue) and v._type is None:
+        raise TypeError("Unable to convert function return value to a Python type (enum is not bound)")
+    return v
 
 
-def _is_bool(v):
-    return isinstance(v, bool)
+# --------------------------------------------------------------------------
+# layer 1: hand-written mirrors of the C++ classes, C++ member names
+# --------------------------------------------------------------------------
+
+class _CppObject(object):
+    _cpp_name = None
+    _cpp_fields = {}    # public data member -> predicate "this Python value converts to the member's type"
+    _cpp_methods = ()   # public methods that are mirrored
+    _stub_attrs = ()    # stub-internal attributes shown on the Python object (not bindings)
+
+    def _copy(self):
+        o = object.__new__(type(self))
+        o.__dict__.update(self.__dict__)
+        return o
 
 
-class Circuit:
-    """Mirror of coloquinte::Circuit for what read_ispd touches (src/coloquinte.cpp)."""
+def _no_ctor(cls, n):
+    raise NotImplementedError("not mirrored: %s::%s/%d" % (cls, cls, n))
 
-    def __init__(self, nb_cells):
-        if not _is_int(nb_cells):
+
+class _CppRectangle(_CppObject):
+    """struct Rectangle (src/coloquinte.hpp)"""
+    _cpp_name = "Rectangle"
+    _cpp_fields = {"minX": _is_int, "maxX": _is_int, "minY": _is_int, "maxY": _is_int}
+    _cpp_methods = ("width", "height", "area", "toString")
+
+    def __init__(self, *a):
+        if len(a) == 0:
+            a = (0, 0, 0, 0)
+        elif len(a) != 4:
+            _no_ctor("Rectangle", len(a))
+        for v in a:
+            if not _is_int(v):
+                raise TypeError("Rectangle(): incompatible constructor arguments")
+        self.minX, self.maxX, self.minY, self.maxY = a
+
+    def width(self):
+        return self.maxX - self.minX
+
+    def height(self):
+        return self.maxY - self.minY
+
+    def area(self):
+        return self.width() * self.height()
+
+    def toString(self):
+        return "Rectangle %d..%d x %d..%d" % (self.minX, self.maxX, self.minY, self.maxY)
+
+
+class _CppRow(_CppRectangle):
+    """struct Row : public Rectangle"""
+    _cpp_name = "Row"
+    _cpp_fields = {"orientation": _is_enum("CellOrientation")}
+    _cpp_methods = ()
+
+    def __init__(self, *a):
+        if len(a) == 2:      # Row(Rectangle a, CellOrientation orient)
+            try:
+                r = _load_obj(a[0], "Rectangle", "area")
+            except TypeError:
+                raise TypeError("Row(): incompatible constructor arguments")
+            coords, orient = (r.minX, r.maxX, r.minY, r.maxY), a[1]
+        elif len(a) == 5:    # Row(int minX, int maxX, int minY, int maxY, CellOrientation orient)
+            coords, orient = a[:4], a[4]
+        else:
+            _no_ctor("Row", len(a))
+        if not _is_enum("CellOrientation")(orient) or not all(_is_int(v) for v in coords):
+            raise TypeError("Row(): incompatible constructor arguments")
+        _CppRectangle.__init__(self, *coords)
+        self.orientation = orient
+
+
+_SIZE_MSG = "Number of elements is not the same as the number of cells of the circuit"
+
+
+class _CppCircuit(_CppObject):
+    """class Circuit (src/coloquinte.hpp, src/coloquinte.cpp) for what the Python reader can reach."""
+    _cpp_name = "Circuit"
+    _cpp_methods = ("nbCells", "nbNets", "nbRows", "nbPins",
+                    "cellWidth", "setCellWidth", "cellHeight", "setCellHeight",
+                    "cellIsFixed", "setCellIsFixed", "cellIsObstruction", "setCellIsObstruction",
+                    "cellRowPolarity", "setCellRowPolarity", "cellX", "setCellX", "cellY", "setCellY",
+                    "cellOrientation", "setCellOrientation", "rows", "setRows", "rowHeight",
+                    "computePlacementArea", "addNet", "hpwl", "check", "toString")
+    _stub_attrs = ("_nets",)
+
+    def __init__(self, *a):
+        if len(a) != 1:
+            _no_ctor("Circuit", len(a))
+        n = a[0]
+        if not _is_int(n):
             raise TypeError("Circuit(): incompatible constructor arguments")
-        n = nb_cells
         self._n = n
-        self._w = [0] * n
-        self._h = [0] * n
-        self._fixed = [False] * n
-        self._obs = [True] * n
-        self._pol = [CellRowPolarity.__members__["ANY"]] * n
-        self._x = [0] * n
-        self._y = [0] * n
-        self._orient = [_EnumValue(CellOrientation, "N", 0)] * n
+        self._cellWidth = [0] * n
+        self._cellHeight = [0] * n
+        self._cellIsFixed = [False] * n
+        self._cellIsObstruction = [True] * n
+        self._cellRowPolarity = [_cpp_enum_value("CellRowPolarity", "ANY")] * n
+        self._cellX = [0] * n
+        self._cellY = [0] * n
+        self._cellOrientation = [_cpp_enum_value("CellOrientation", 0)] * n   # value-initialised
         self._rows = []
         self._nets = []   # (cells, xoffs, yoffs, weight)
+        self.check()
 
     def _sized(self, lst):
-        if len(lst) != self._n:
-            raise RuntimeError("Number of elements is not the same as the number of cells of the circuit")
+        if len(lst) != self.nbCells():
+            raise RuntimeError(_SIZE_MSG)
         return lst
 
-    nb_cells = property(lambda self: self._n)
-    nb_nets = property(lambda self: len(self._nets))
-    nb_rows = property(lambda self: len(self._rows))
-    nb_pins = property(lambda self: sum(len(n[0]) for n in self._nets))
+    def nbCells(self):
+        return len(self._cellWidth)
 
-    cell_width = property(lambda self: list(self._w),
-                          lambda self, v: setattr(self, "_w", self._sized(_conv(v, _is_int, "cell_width"))))
-    cell_height = property(lambda self: list(self._h),
-                           lambda self, v: setattr(self, "_h", self._sized(_conv(v, _is_int, "cell_height"))))
-    cell_is_fixed = property(lambda self: list(self._fixed),
-                             lambda self, v: setattr(self, "_fixed", self._sized(_conv(v, _is_bool, "cell_is_fixed"))))
-    cell_is_obstruction = property(lambda self: list(self._obs),
-                                   lambda self, v: setattr(self, "_obs", self._sized(_conv(v, _is_bool, "cell_is_obstruction"))))
-    cell_row_polarity = property(lambda self: list(self._pol),
-                                 lambda self, v: setattr(self, "_pol", self._sized(_conv(v, _is_enum(CellRowPolarity), "cell_row_polarity"))))
-    cell_x = property(lambda self: list(self._x),
-                      lambda self, v: setattr(self, "_x", self._sized(_conv(v, _is_int, "cell_x"))))
-    cell_y = property(lambda self: list(self._y),
-                      lambda self, v: setattr(self, "_y", self._sized(_conv(v, _is_int, "cell_y"))))
-    cell_orientation = property(lambda self: list(self._orient),
-                                lambda self, v: setattr(self, "_orient", self._sized(_conv(v, _is_enum(CellOrientation), "cell_orientation"))))
-    rows = property(lambda self: list(self._rows),
-                    lambda self, v: setattr(self, "_rows", _conv(v, lambda r: isinstance(r, Row), "rows")))
+    def nbNets(self):
+        return len(self._nets)
 
-    @property
-    def row_height(self):
+    def nbRows(self):
+        return len(self._rows)
+
+    def nbPins(self):
+        return sum(len(n[0]) for n in self._nets)
+
+    def cellX(self):
+        return list(self._cellX)
+
+    def setCellX(self, x):
+        self._cellX = self._sized(_conv(x, _is_int, "x"))
+
+    def cellY(self):
+        return list(self._cellY)
+
+    def setCellY(self, y):
+        self._cellY = self._sized(_conv(y, _is_int, "y"))
+
+    def cellIsFixed(self):
+        return list(self._cellIsFixed)
+
+    def setCellIsFixed(self, f):
+        self._cellIsFixed = self._sized(_conv(f, _is_bool, "f"))
+
+    def cellIsObstruction(self):
+        return list(self._cellIsObstruction)
+
+    def setCellIsObstruction(self, f):
+        self._cellIsObstruction = self._sized(_conv(f, _is_bool, "f"))
+
+    def cellRowPolarity(self):
+        return list(self._cellRowPolarity)
+
+    def setCellRowPolarity(self, f):
+        self._cellRowPolarity = self._sized(_conv(f, _is_enum("CellRowPolarity"), "f"))
+
+    def cellWidth(self):
+        return list(self._cellWidth)
+
+    def setCellWidth(self, widths):
+        self._cellWidth = self._sized(_conv(widths, _is_int, "widths"))
+
+    def cellHeight(self):
+        return list(self._cellHeight)
+
+    def setCellHeight(self, heights):
+        self._cellHeight = self._sized(_conv(heights, _is_int, "heights"))
+
+    def cellOrientation(self):
+        return list(self._cellOrientation)
+
+    def setCellOrientation(self, orient):
+        self._cellOrientation = self._sized(_conv(orient, _is_enum("CellOrientation"), "orient"))
+
+    def rows(self):
+        return [r._copy() for r in self._rows]
+
+    def setRows(self, r):
+        self._rows = [x._copy() for x in _conv(r, None, "r", load=lambda v, what: _load_obj(v, "Row", what))]
+
+    def addNet(self, cells, xOffsets, yOffsets, weight=1.0):
+        cells = _conv(cells, _is_int, "cells")
+        xs = _conv(xOffsets, _is_int, "xOffsets")
+        ys = _conv(yOffsets, _is_int, "yOffsets")
+        weight = float(weight)
+        if len(cells) != len(xs) or len(cells) != len(ys):
+            raise RuntimeError("Inconsistent number of pins for the net")
+        for c in cells:
+            if c < 0 or c >= self.nbCells():
+                raise RuntimeError("Net pin refers to a cell that is not in the circuit")
+        if not cells:
+            return
+        self._nets.append((cells, xs, ys, weight))
+
+    def computePlacementArea(self):
         if not self._rows:
+            return _CppRectangle(0, 0, 0, 0)
+        return _CppRectangle(min(r.minX for r in self._rows), max(r.maxX for r in self._rows),
+                             min(r.minY for r in self._rows), max(r.maxY for r in self._rows))
+
+    def rowHeight(self):
+        if self.nbRows() == 0:
             raise RuntimeError("Cannot compute row height as no row has been defined")
-        ret = self._rows[0].height
+        ret = self._rows[0].height()
         for r in self._rows:
-            if r.height != ret:
+            if r.height() != ret:
                 raise RuntimeError("The circuit contains rows of different heights")
         return ret
 
-    def add_net(self, cells, x_offsets, y_offsets, weight=1.0):
-        cells = _conv(cells, _is_int, "cells")
-        xs = _conv(x_offsets, _is_int, "x_offsets")
-        ys = _conv(y_offsets, _is_int, "y_offsets")
-        if len(cells) != len(xs) or len(cells) != len(ys):
-            raise RuntimeError("Inconsistent number of pins for the net")
-        if not cells:
-            return
-        self._nets.append((cells, xs, ys, float(weight)))
+    def hpwl(self):
+        O = _CPP_ENUMS["CellOrientation"]
+        turn = (O["E"], O["W"], O["FW"], O["FE"])
+        flip_x = (O["S"], O["W"], O["FN"], O["FE"])
+        flip_y = (O["S"], O["E"], O["FS"], O["FE"])
+        ret = 0
+        for cells, xo, yo, _ in self._nets:
+            px, py = [], []
+            for k, c in enumerate(cells):
+                o = self._cellOrientation[c].value
+                w, h = self._cellWidth[c], self._cellHeight[c]
+                pw, ph = (h, w) if o in turn else (w, h)
+                ox, oy = (yo[k], xo[k]) if o in turn else (xo[k], yo[k])
+                px.append(self._cellX[c] + (pw - ox if o in flip_x else ox))
+                py.append(self._cellY[c] + (ph - oy if o in flip_y else oy))
+            ret += (max(px) - min(px)) + (max(py) - min(py))
+        return ret
+
+    def toString(self):
+        return "Circuit with %d cells, %d nets and %d pins" % (self.nbCells(), self.nbNets(), self.nbPins())
 
     def check(self):
-        pass   # every size invariant of Circuit::check holds by construction here
+        n = self.nbCells()
+        for lst in (self._cellWidth, self._cellHeight, self._cellIsFixed, self._cellIsObstruction,
+                    self._cellX, self._cellY, self._cellOrientation):
+            if len(lst) != n:
+                raise RuntimeError("Size mismatch")
+        for cells, xs, ys, _ in self._nets:
+            if len(xs) != len(cells) or len(ys) != len(cells):
+                raise RuntimeError("Size mismatch")
+
+
+_MIRRORS = {"Rectangle": _CppRectangle, "Row": _CppRow, "Circuit": _CppCircuit}
+
+
+# --------------------------------------------------------------------------
+# layer 2: the Python-visible classes, generated from the binding table
+# --------------------------------------------------------------------------
+
+def _declares(mirror, kind, name):
+    return any(name in k.__dict__.get(kind, ()) for k in mirror.__mro__)
+
+
+def _member(S, C, name, kind):
+    """The mirror class holding member `C::name` as bound in class S, or NotImplementedError."""
+    ms, mc = _MIRRORS.get(S), _MIRRORS.get(C)
+    if ms is None or mc is None or not issubclass(ms, mc) or not _declares(mc, kind, name):
+        raise NotImplementedError("not mirrored: %s::%s" % (C, name))
+    return mc
+
+
+def _call(obj, S, C, f, args):
+    mc = _member(S, C, f, "_cpp_methods")
+    return _to_py(getattr(mc, f)(_self_cpp(obj), *args))
+
+
+def _bind_args(where, names, args, kwargs, defaults):
+    """Positional argument tuple from a Python call, with the keyword names given by py::arg."""
+    if not kwargs and (defaults is None or len(args) >= len(names)):
+        return tuple(args)
+    out = list(args)
+    if len(out) > len(names):
+        raise TypeError("%s(): incompatible function arguments" % where)
+    kwargs = dict(kwargs)
+    for nm in names[len(out):]:
+        if nm in kwargs:
+            out.append(kwargs.pop(nm))
+        elif defaults is not None and nm in defaults:
+            out.append(defaults[nm])
+        elif defaults is not None:
+            raise TypeError("%s(): incompatible function arguments (missing %s)" % (where, nm))
+        else:
+            break   # defaults are not in the table: left to the mirror (the C++ default)
+    if kwargs:
+        raise TypeError("%s(): incompatible function arguments (keywords %s)" % (where, ", ".join(sorted(kwargs))))
+    return tuple(out)
+
+
+def _arg_names(S, name):
+    return [a for (s, n, a) in _T["argNames"] if s == S and n == name]
+
+
+def _arg_defaults(S, name):
+    """`py::arg("a") = literal` when the table records it as argDefaults (S, name, a, literal)."""
+    if "argDefaults" not in _T:
+        return None
+    out = {}
+    for (s, n, a, lit) in _T["argDefaults"]:
+        if s == S and n == name:
+            try:
+                out[a] = int(lit, 0)
+            except ValueError:
+                out[a] = float(lit)
+    return out
+
+
+def _make_rw(S, p, C, g, D, s):
+    def fget(self):
+        return _call(self, S, C, g, ())
+
+    def fset(self, v):
+        _call(self, S, D, s, (v,))
+    return property(fget, fset, doc="def_property(%s, &%s::%s, &%s::%s)" % (p, C, g, D, s))
+
+
+def _make_ro(S, p, C, g):
+    def fget(self):
+        return _call(self, S, C, g, ())
+    return property(fget, doc="def_property_readonly(%s, &%s::%s)" % (p, C, g))
+
+
+def _make_attr(S, p, C, m):
+    def fget(self):
+        _member(S, C, m, "_cpp_fields")
+        return _to_py(getattr(_self_cpp(self), m))
+
+    def fset(self, v):
+        mc = _member(S, C, m, "_cpp_fields")
+        ok = [k.__dict__["_cpp_fields"][m] for k in mc.__mro__ if m in k.__dict__.get("_cpp_fields", ())][0]
+        if not ok(v):
+            raise TypeError("incompatible function arguments (%s)" % p)
+        setattr(_self_cpp(self), m, v)
+    return property(fget, fset, doc="def_readwrite(%s, &%s::%s)" % (p, C, m))
+
+
+def _make_method(S, name, C, f, names, defaults):
+    def method(self, *args, **kwargs):
+        return _call(self, S, C, f, _bind_args(name, names, args, kwargs, defaults))
+    method.__name__ = name
+    method.__doc__ = "def(%s, &%s::%s)" % (name, C, f)
+    return method
+
+
+def _make_init(py, S, mirror, ctors):
+    """ctors: [(arity, names)] in binding order."""
+    def __init__(self, *args, **kwargs):
+        if not ctors:
+            raise TypeError("%s: No constructor defined!" % py)
+        for arity, names in ctors:
+            try:
+                a = _bind_args(py, names, args, kwargs, None)
+            except TypeError:
+                continue
+            if len(a) != arity:
+                continue
+            self._cpp = mirror(*a)
+            return
+        raise TypeError("%s(): incompatible constructor arguments" % py)
+    return __init__
+
+
+def _constructors(S):
+    arities = [0 if not types.strip() else len(types.split(",")) for (s, types) in _T["constructors"] if s == S]
+    names = _arg_names(S, "__init__")
+    out, i = [], 0
+    for n in arities:
+        if len(names) == sum(arities):   # every constructor names all its arguments
+            out.append((n, names[i:i + n]))
+            i += n
+        else:
+            out.append((n, names if len(arities) == 1 else []))
+    return out
+
+
+def _noop(name):
+    if name in ("__str__", "__repr__"):
+        def method(self, *a, **k):
+            return "<%s>" % type(self).__name__
+    else:
+        def method(self, *a, **k):
+            return None
+    method.__name__ = name
+    return method
+
+
+def _make_class(py, S):
+    bases = []
+    for (s, b) in _T["bases"]:
+        if s == S:
+            if b not in _py_class_of:
+                raise ImportError("module.cpp: class %s: referenced unknown base type %s" % (py, b))
+            bases.append(_py_class_of[b])
+    ns = {"__module__": __name__, "_cpp_class": S, "__doc__": "py::class_<%s>(m, \"%s\")" % (S, py)}
+    mirror = _MIRRORS.get(S)
+    if mirror is None:
+        # permissive stand-in: any constructor arguments, plain Python attributes, bound methods do nothing
+        ns["__init__"] = lambda self, *a, **k: None
+        for (s, name, C, f) in _T["methods"] + _T["lambdas"]:
+            if s == S:
+                ns[name] = _noop(name)
+    else:
+        ns["__init__"] = _make_init(py, S, mirror, _constructors(S))
+        for (s, p, C, g, D, st) in _T["rwProperties"]:
+            if s == S:
+                ns[p] = _make_rw(S, p, C, g, D, st)
+        for (s, p, C, g) in _T["roProperties"]:
+            if s == S:
+                ns[p] = _make_ro(S, p, C, g)
+        for (s, p, C, m) in _T["attributes"]:
+            if s == S:
+                ns[p] = _make_attr(S, p, C, m)
+        for (s, name, C, f) in _T["methods"]:
+            if s == S:
+                ns[name] = _make_method(S, name, C, f, _arg_names(S, name), _arg_defaults(S, name))
+        for (s, name, C, f) in _T["lambdas"]:
+            if s == S:
+                ns[name] = _make_method(S, name, C, f, [], None)
+        for a in mirror._stub_attrs:
+            ns[a] = property(lambda self, a=a: getattr(_self_cpp(self), a))
+    return type(py, tuple(bases) or (_Bound,), ns)
+
+
+for _py, _S in _T["classes"]:
+    if _S in _py_class_of or _py in _enums or any(_py == c.__name__ for c in _py_class_of.values()):
+        raise ImportError("module.cpp: class %s (%s) is bound twice" % (_py, _S))
+    _py_class_of[_S] = _make_class(_py, _S)
+
+# module attributes, as PYBIND11_MODULE sets them: classes, enum types, exported enum values
+for _t in _enums.values():
+    globals()[_t.__name__] = _t
+    if _t._exported:
+        for _n, _v in _t.__members__.items():
+            globals()[_n] = _v
+for _c in _py_class_of.values():
+    globals()[_c.__name__] = _c
